@@ -11,3 +11,5 @@ Example tie_prune_order :
   && before "objects.DeleteBlock" "objects.DeleteCommit" skel_prune
   && before "objects.DeleteBlockIndex" "objects.DeleteCommit" skel_prune = true.
 Proof. vm_compute; reflexivity. Qed.
+Example tie_prune_commit_order : prune_commit_order = "childrenFirst".
+Proof. vm_compute; reflexivity. Qed.
